@@ -60,3 +60,16 @@ Print Assumptions C17_row_count.
 Theorem C17_accepted_is_in_bounds : forall m limit, meta_i64 m -> i64 limit -> validate m limit = true -> meta_in m limit.
 Proof. exact validate_bounds. Qed.
 Print Assumptions C17_accepted_is_in_bounds.
+
+(* non-vacuity: a concrete two-block merge output (one rebuilt block, one block copied verbatim from a
+   concrete source file, compression changing from snappy to zstd) satisfies every premise of
+   C17_write_read, and reads back *)
+Example C17_nonvacuous :
+  (forall s, (ex_crc s < 4294967296)%N) /\ (forall x, ex_compress CNone x = x) /\
+  (forall k x, k <> CNone -> k <> COther -> ex_decompress k (ex_compress k x) = Some x) /\
+  Forall (action_ok ex_crc ex_dec_ok ex_decompress ex_filters ex_entries CZstd) ex_acts /\
+  filters_ok ex_dec_ok (ex_filters (flat_map rows_of_action ex_acts)) /\
+  lenZ (fst ex_out) <= Max64 /\ lenZ (ex_jenc (snd ex_out)) < 4294967296 /\ ex_jdec (ex_jenc (snd ex_out)) = Some (snd ex_out) /\
+  snd (read_metadata ex_crc ex_dec_ok ex_jdec (fst ex_out)) = Some (snd ex_out, lenZ (fst ex_out), ex_filters (flat_map rows_of_action ex_acts)) /\
+  length (m_blocks (snd ex_out)) = 2%nat.
+Proof. exact c17_example. Qed.
